@@ -64,8 +64,32 @@ def counted_call(inp, cap=CAP):
         Pervaporation.get_partial_fluxes_from_permeate_composition = orig
 
 
+WALL = 25  # seconds; the capped calculation of the unchanged code (10000 evaluations) takes well under one second
+
+
+class _WallClock(BaseException):
+    pass
+
+
 def concrete(inp):
-    kind, n, out = counted_call(inp)
+    import signal
+
+    def on_alarm(*_):
+        raise _WallClock()
+
+    # a loop that does not go through the counted driving-force function (an inlined copy, say) is caught by the wall clock
+    old = signal.signal(signal.SIGALRM, on_alarm)
+    signal.setitimer(signal.ITIMER_REAL, WALL)
+    try:
+        kind, n, out = counted_call(inp)
+    except _WallClock:
+        return {"ok": False, "inputs": inp,
+                "detail": "%s T=%r w=%r P=(%r, %r) p_perm=%r T_perm=%r precision=%r: no result and no error after %d s of wall time (the counted driving-force "
+                          "function was not called more than %d times: the iteration runs somewhere else)"
+                          % (inp.get("mixture"), inp["T"], inp["x"], inp["P1"], inp["P2"], inp.get("Pp"), inp.get("Tp"), inp["prec"], WALL, CAP)}
+    finally:
+        signal.setitimer(signal.ITIMER_REAL, 0)
+        signal.signal(signal.SIGALRM, old)
     ok = kind != "running"
     return {"ok": ok, "inputs": inp,
             "detail": "%s T=%r w=%r P=(%r, %r) p_perm=%r T_perm=%r precision=%r: %s after %d driving-force evaluations"
@@ -169,6 +193,10 @@ def ranking(job):
     for l in loops:
         if l[1] != "calculate_partial_fluxes":
             job.record("C10/while/%s:%s:%d" % l, "inconclusive", "while loop outside the flux calculation is not analysed")
+    in_flux = [l for l in loops if l[1] == "calculate_partial_fluxes"]
+    for l in in_flux[1:]:
+        job.record("C10/while/%s:%s:%d" % l, "inconclusive", "a further while loop in the flux calculation (line %d): the ranking argument covers the first one only, "
+                   "termination of this one is not proved (the witness replays run under a wall clock)" % l[2])
     ex = _extract_loop()
     if ex is None:
         job.record("C10/ranking", "discharged", "calculate_partial_fluxes contains no while loop (bounded by construction)", nontrivial=False)
